@@ -47,6 +47,9 @@ func main() {
 	verif := flag.String("verif", "/verif", "verif directory (evidence, replay, known findings)")
 	dump := flag.String("dump", "", "dump path summaries of functions whose name contains this string")
 	noFix := flag.Bool("nofixtures", false, "skip fixture self-checks")
+	viewFlag := flag.Int("view", 0, "debug: run the rules on this inlining view only")
+	modeFlag := flag.Int("mode", 0, "inlining view for -dump (0 none, 1 new helpers, 2 all same-package functions)")
+	listFuncs := flag.Bool("listfuncs", false, "print the names of all functions of the tree (to regenerate baseline_funcs.txt)")
 	overlayArg := flag.String("overlay", "", "relpath=file: analyse the tree with this file's content in place of relpath (in memory)")
 	patchFile := flag.String("patch", "", "analyse the tree as if this unified diff (paths relative to the tree root, -p1) were applied (in memory, via an overlay; the tree itself is not touched)")
 	flag.Parse()
@@ -58,6 +61,17 @@ func main() {
 	if s := os.Getenv("VERIF_SEED"); s != "" {
 		seed, _ = strconv.Atoi(s)
 	}
+	if *listFuncs {
+		P, err := Load(LoadOpts{Dir: *repo, Tags: "verif", MinPkgs: 1})
+		if err != nil {
+			fmt.Println("load error:", err)
+			os.Exit(2)
+		}
+		for _, fi := range P.Funcs {
+			fmt.Println(fi.Name)
+		}
+		return
+	}
 	if *dump != "" {
 		P, err := Load(LoadOpts{Dir: *repo, Tags: "verif", MinPkgs: 1})
 		if err != nil {
@@ -65,6 +79,7 @@ func main() {
 			os.Exit(2)
 		}
 		an := NewAnalysis(P)
+		an.Mode = *modeFlag
 		total := 0
 		for _, fi := range P.Funcs {
 			if *dump != "all" && !strings.Contains(fi.Name, *dump) {
@@ -132,6 +147,10 @@ func main() {
 	} else {
 		c.P = P
 		c.An = NewAnalysis(P)
+		if *viewFlag > 0 {
+			c.An.Mode = *viewFlag
+			c.P.Skip = newHelpers(c.P, c.An.Baseline)
+		}
 		R.Analysed["packages"] = len(P.Pkgs)
 		R.Analysed["files"] = P.NFiles
 		R.Analysed["functions"] = len(P.Funcs)
@@ -147,6 +166,7 @@ func main() {
 				}
 			}()
 			spec.run(c)
+			upgradeByInlining(c, spec)
 			if !*noFix {
 				runFixtures(c, spec)
 			}
